@@ -142,22 +142,34 @@ func crossCheckBag(s *bagSpec, bag []byte, order []int) string {
 		}
 		return got, ""
 	}
-	got, bad := read(true)
-	if bad != "" {
-		return "linear: " + bad
+	big := false
+	for i := range s.msgs {
+		big = big || len(s.msgs[i].data) > 64<<10
 	}
-	if len(got) != len(want) {
-		return fmt.Sprintf("linear: go-rosbag reads %d messages, the bag was generated with %d", len(got), len(want))
+	if big && s.partition != nil {
+		// one Read call per byte of a megabyte-sized bag costs more than the conversion under test:
+		// chunked bags with large messages are cross-checked through the index-based reader only
+		goto indexed
 	}
-	for i := range got {
-		if got[i] != want[i] {
-			return fmt.Sprintf("linear: message %d differs (conn %d time %d %d bytes; generated conn %d time %d %d bytes)", i, got[i].conn, got[i].time, len(got[i].data), want[i].conn, want[i].time, len(want[i].data))
+	{
+		got, bad := read(true)
+		if bad != "" {
+			return "linear: " + bad
+		}
+		if len(got) != len(want) {
+			return fmt.Sprintf("linear: go-rosbag reads %d messages, the bag was generated with %d", len(got), len(want))
+		}
+		for i := range got {
+			if got[i] != want[i] {
+				return fmt.Sprintf("linear: message %d differs (conn %d time %d %d bytes; generated conn %d time %d %d bytes)", i, got[i].conn, got[i].time, len(got[i].data), want[i].conn, want[i].time, len(want[i].data))
+			}
 		}
 	}
+indexed:
 	if s.partition == nil {
 		return "" // an unchunked bag has no index
 	}
-	got, bad = read(false)
+	got, bad := read(false)
 	if bad != "" {
 		return "indexed: " + bad
 	}
